@@ -85,6 +85,9 @@ def file_frame(draw):
     if ncols >= 3 and draw(st.integers(0, 3)) == 0:
         # a column whose name holds a comma, made of two other columns' names
         cols[-1]['name'] = 'c0,c1'
+    elif ncols >= 2 and draw(st.integers(0, 2)) == 0:
+        # a column whose name extends another's with an underscore
+        cols[1]['name'] = 'c0_x'
     return {'n': n, 'cols': cols}
 
 
@@ -131,6 +134,10 @@ def case_strategy(draw, tier):
                 draw(st.lists(st.sampled_from(names), min_size=1,
                               max_size=len(names), unique=True)))
             case['interleave'] = draw(st.booleans())
+            if case['interleave'] and draw(st.booleans()):
+                # (every field, in the file's order: each is then followed
+                # by its own flag columns)
+                case['output_fields'] = list(names)
             case['index'] = draw(st.booleans())
             case['int'] = draw(st.booleans())
             case['outfmt'] = draw(st.sampled_from(['csv', 'csv', 'parquet']))
@@ -782,6 +789,35 @@ def run(case, ctx):
                                     % (' '.join(dflags), c, list(f[c]),
                                        want_ok))
                         break
+    if e1 and case['interleave'] and case['outfmt'] == 'csv' and isinstance(
+            of, list) and of == [c['name'] for c in case['frame']['cols']
+                                 if c['name'] in of]:
+        # --interleave: each field is followed by its own flag columns
+        try:
+            header = list(pd.read_csv(cli_out, dtype=str, nrows=0,
+                                      keep_default_na=False).columns)
+        except Exception:
+            header = []
+        fields_ = [c['name'] for c in case['frame']['cols']]
+        owner_seen = None
+        for col in header:
+            if col in fields_:
+                owner_seen = col
+            elif col.endswith('_ok'):
+                owners = [f for f in fields_ if col.startswith(f + '_')]
+                if owners and owner_seen in fields_ and header.index(
+                        max(owners, key=len)) >= 0 if max(
+                            owners, key=len) in header else False:
+                    want_owner = max(owners, key=len)
+                    if owner_seen != want_owner:
+                        out.violate('detect', 'interleave-order',
+                                    'tdda detect %s: column %s follows '
+                                    'field %s, not its own field %s; header '
+                                    '%r' % (' '.join(dflags), col, owner_seen,
+                                            want_owner, header))
+                        break
+        if header:
+            out.label('interleave-order-checked')
     if use_sub:
         sub_out = os.path.join(d, 'sub_out.' + case['outfmt'])
         argv2 = [sub_out if a == cli_out else a for a in argv]
